@@ -264,6 +264,18 @@ class SX(object):
                                                        or (isinstance(s.body[0], ast.Raise) and t in cfg.get('raise_stops', ()))):
                 self.lines.append('if %s then None else' % self.test(s.test))
                 return
+            # `if TEST: <in-place statements>; return`: the loop stops; the statements (an undo of the step) are
+            # executed on a fork of the state, which is kept for the caller (value of the state names at that exit)
+            if len(s.body) >= 2 and not s.orelse and isinstance(s.body[-1], ast.Return) and s.body[-1].value is None:
+                import copy
+                cond = self.test(s.test)
+                fork = copy.deepcopy(self)
+                fork.stmts(s.body[:-1])
+                if not hasattr(self, 'exits'):
+                    self.exits = []
+                self.exits.append((cond, fork))
+                self.lines.append('if %s then None else' % cond)
+                return
             # `if TEST: <one scalar update>`  ->  v := if TEST then new else old
             if len(s.body) == 1 and not s.orelse and isinstance(s.body[0], (ast.AugAssign, ast.Assign)):
                 tgt = s.body[0].target if isinstance(s.body[0], ast.AugAssign) else s.body[0].targets[0]
@@ -439,10 +451,11 @@ CG = dict(file='odl/solvers/iterative/iterative.py', fn='conjugate_gradient',
 
 CGN = dict(file='odl/solvers/iterative/iterative.py', fn='conjugate_gradient_normal',
            operators={'op': ('A', 'V', 'W'), 'op.derivative(.).adjoint': ('At', 'W', 'V')},
-           junk={'op.range.element()': 'W'}, scalar_consts={'np.finfo(float).eps ** 2': 'eps2'},
+           junk={'op.range.element()': 'W'},
+           scalar_consts={'np.finfo(float).eps ** 2': 'eps2', 'np.finfo(float).eps': 'epsm'},
            skip_tests=['x not in op.domain', 'callback is not None'],
            state=[('n_x', 'x', 'vec'), ('n_d', 'd', 'vec'), ('n_p', 'p', 'vec'), ('n_s', 's', 'vec'),
-                  ('n_ss', 'sqnorm_s_old', 'scal'), ('n_stop', 'sqnorm_s_stop', 'scal')])
+                  ('n_ss', 'sqnorm_s_old', 'scal'), ('n_stop', 'sqnorm_s_stop', 'scal'), ('n_dd', 'sqnorm_d_old', 'scal')])
 
 
 def gen_krylov(repo, name, cfg, rec, sig_start, sig_step, wrap_start):
@@ -475,8 +488,14 @@ def gen_krylov(repo, name, cfg, rec, sig_start, sig_step, wrap_start):
     sy.stmts(loop.body)
     vals = state_values(sy, loop, cfg['state'])
     step = emit(sy, 'Some %s' % record(vals))
-    return ['Definition gen_%s_start %s :=' % (name, sig_start), start + '.',
-            'Definition gen_%s_step %s :=' % (name, sig_step), step + '.', '']
+    out = ['Definition gen_%s_start %s :=' % (name, sig_start), start + '.',
+           'Definition gen_%s_step %s :=' % (name, sig_step), step + '.']
+    # exits that modify the state before returning (undo of a step): what they leave in x
+    for k, (cond, fork) in enumerate(getattr(sy, 'exits', []), 1):
+        xv = fork.val[fork.env['x'][1]][0]
+        out += ['Definition gen_%s_exit%d_x %s : V :=' % (name, k, sig_step.rsplit(') : ', 1)[0] + ')'),
+                '\n'.join('  ' + l for l in fork.lines if not l.startswith('if ')) + '\n  ' + xv + '.']
+    return out + ['']
 
 
 PM = dict(file='odl/operator/oputils.py', fn='power_method_opnorm',
@@ -805,7 +824,7 @@ def translate(repo=None):
     out += gen_krylov(repo, 'cg', CG, 'cgst', '(A : V -> V) (rhs x : V) : option (@cgst T V)',
                       '(A : V -> V) (s : @cgst T V) : option (@cgst T V)', True)
     out += gen_krylov(repo, 'cgn', CGN, 'cgnst', '(A : V -> W) (At : W -> V) (eps2 : T) (rhs : W) (x : V) : @cgnst T V W',
-                      '(A : V -> W) (At : W -> V) (s : @cgnst T V W) : option (@cgnst T V W)', False)
+                      '(A : V -> W) (At : W -> V) (epsm : T) (s : @cgnst T V W) : option (@cgnst T V W)', False)
     out += gen_power(repo)
     out += gen_fb(repo)
     out += gen_backtracking(repo)
